@@ -364,3 +364,28 @@ def _(m, callee, args):
     a = args[0]
     msg = ''.join(chr(c) for c in a[1].cs) if isinstance(a, tuple) and a[0] == 'fmtargs_str' else 'panic'
     raise Panic(msg)
+
+
+@model(r'^core::slice::<impl \[.*\]>::last$')
+def _(m, callee, args):
+    v = deref_all(m, args[0])
+    items = v.items if isinstance(v, RVec) else v
+    if not items:
+        return Enum(0, [], 'None')
+    return Enum(1, [ValRef(items[-1])], 'Some')
+
+
+@model(r'^core::slice::<impl \[.*\]>::first$')
+def _(m, callee, args):
+    v = deref_all(m, args[0])
+    items = v.items if isinstance(v, RVec) else v
+    if not items:
+        return Enum(0, [], 'None')
+    return Enum(1, [ValRef(items[0])], 'Some')
+
+
+@model(r'^core::slice::<impl \[.*\]>::(len|is_empty)$|^Vec::<.*>::len$')
+def _(m, callee, args):
+    v = deref_all(m, args[0])
+    items = v.items if isinstance(v, RVec) else v
+    return (len(items) == 0) if callee.endswith('is_empty') else len(items)
